@@ -1,0 +1,201 @@
+//! Verification hook, compiled only with `--cfg gamedig_verif`.
+//!
+//! When a script is installed on the current thread, the sockets in
+//! `crate::socket` answer from the script instead of the network and record
+//! what the client did. It also re-exports the crate-private items that the
+//! external verification harness exercises directly.
+
+use crate::protocols::types::TimeoutSettings;
+use crate::GDErrorKind::{PacketReceive, PacketSend, SocketConnect};
+use crate::GDResult;
+
+use std::cell::RefCell;
+use std::collections::VecDeque;
+use std::net::{SocketAddr, TcpListener, TcpStream};
+use std::time::Duration;
+
+pub use crate::buffer::{Buffer, StringDecoder, Utf16Decoder, Utf8Decoder, Utf8LengthPrefixedDecoder};
+pub use crate::protocols::unreal2::Unreal2StringDecoder;
+pub use crate::utils::{error_by_expected_size, retry_on_timeout, u8_lower_upper};
+
+/// `maybe_gather!` as a function: `Ok(None)` = section skipped / failed under
+/// Try, `Err` = propagated by `?`.
+pub fn maybe_gather_fn<T>(
+    toggle: crate::protocols::types::GatherToggle,
+    mut f: impl FnMut() -> GDResult<T>,
+) -> GDResult<Option<T>> {
+    Ok(crate::utils::maybe_gather!(toggle, f()))
+}
+
+#[cfg(feature = "games")]
+pub mod minecraft {
+    use crate::buffer::Buffer;
+    use crate::GDResult;
+    use byteorder::ByteOrder;
+    pub fn get_varint<B: ByteOrder>(b: &mut Buffer<B>) -> GDResult<i32> { crate::games::minecraft::get_varint(b) }
+    pub fn as_varint(v: i32) -> Vec<u8> { crate::games::minecraft::as_varint(v) }
+    pub fn get_string<B: ByteOrder>(b: &mut Buffer<B>) -> GDResult<String> { crate::games::minecraft::get_string(b) }
+    pub fn as_string(v: &str) -> GDResult<Vec<u8>> { crate::games::minecraft::as_string(v) }
+}
+
+/// One event of the scripted UDP network.
+#[derive(Debug, Clone)]
+pub enum UdpEvent {
+    Datagram(Vec<u8>),
+    Timeout,
+}
+
+/// One scripted TCP connection attempt.
+#[derive(Debug, Clone)]
+pub enum TcpConn {
+    Refused,
+    /// The bytes the peer sends before closing (`stall = false`) or going
+    /// silent with the connection open (`stall = true`).
+    Stream { data: Vec<u8>, stall: bool },
+}
+
+#[derive(Debug, Clone, Default)]
+pub struct Script {
+    pub udp: VecDeque<UdpEvent>,
+    pub tcp: VecDeque<TcpConn>,
+    /// Indices (0-based, counted over all sends) of sends that fail.
+    pub send_fail: Vec<usize>,
+}
+
+#[derive(Debug, Clone, PartialEq, Eq)]
+pub enum TraceEvent {
+    NewUdp { addr: SocketAddr },
+    NewTcp { addr: SocketAddr, connect: Option<Duration> },
+    ApplyTimeout { read: Option<Duration>, write: Option<Duration> },
+    Send { addr: SocketAddr, data: Vec<u8> },
+    Recv { size: Option<usize> },
+}
+
+struct State {
+    script: Script,
+    trace: Vec<TraceEvent>,
+    sends: usize,
+    ops: usize,
+    tcp_current: Option<(Vec<u8>, bool)>,
+}
+
+/// Upper bound on socket operations per installed script; exceeding it means
+/// the client does not stop once the server has gone silent.
+pub const MAX_OPS: usize = 100_000;
+
+thread_local! {
+    static STATE: RefCell<Option<State>> = RefCell::new(None);
+    static LISTENER: RefCell<Option<TcpListener>> = RefCell::new(None);
+}
+
+pub fn install(script: Script) {
+    STATE.with(|s| {
+        *s.borrow_mut() = Some(State {
+            script,
+            trace: Vec::new(),
+            sends: 0,
+            ops: 0,
+            tcp_current: None,
+        })
+    });
+}
+
+/// Remove the script; returns the recorded trace.
+pub fn uninstall() -> Vec<TraceEvent> { STATE.with(|s| s.borrow_mut().take().map(|st| st.trace).unwrap_or_default()) }
+
+pub fn active() -> bool { STATE.with(|s| s.borrow().is_some()) }
+
+fn with_state<R>(f: impl FnOnce(&mut State) -> R) -> Option<R> {
+    STATE.with(|s| {
+        let mut g = s.borrow_mut();
+        let st = g.as_mut()?;
+        st.ops += 1;
+        if st.ops > MAX_OPS {
+            drop(g);
+            panic!("VERIF_HANG: more than {MAX_OPS} socket operations");
+        }
+        Some(f(st))
+    })
+}
+
+pub(crate) fn udp_new(addr: &SocketAddr) -> bool { with_state(|st| st.trace.push(TraceEvent::NewUdp { addr: *addr })).is_some() }
+
+pub(crate) fn apply_timeout(ts: &Option<TimeoutSettings>) {
+    let (read, write) = TimeoutSettings::get_read_and_write_or_defaults(ts);
+    with_state(|st| st.trace.push(TraceEvent::ApplyTimeout { read, write }));
+}
+
+pub(crate) fn send(addr: &SocketAddr, data: &[u8]) -> Option<GDResult<()>> {
+    with_state(|st| {
+        st.trace.push(TraceEvent::Send {
+            addr: *addr,
+            data: data.to_vec(),
+        });
+        let idx = st.sends;
+        st.sends += 1;
+        if st.script.send_fail.contains(&idx) {
+            Err(PacketSend.context("scripted send failure"))
+        } else {
+            Ok(())
+        }
+    })
+}
+
+pub(crate) fn udp_receive(size: Option<usize>, default_size: usize) -> Option<GDResult<Vec<u8>>> {
+    with_state(|st| {
+        st.trace.push(TraceEvent::Recv { size });
+        match st.script.udp.pop_front() {
+            Some(UdpEvent::Datagram(mut d)) => {
+                d.truncate(size.unwrap_or(default_size));
+                Ok(d)
+            }
+            Some(UdpEvent::Timeout) | None => Err(PacketReceive.context("scripted timeout")),
+        }
+    })
+}
+
+fn dummy_stream() -> std::io::Result<TcpStream> {
+    LISTENER.with(|l| {
+        let mut l = l.borrow_mut();
+        if l.is_none() {
+            *l = Some(TcpListener::bind("127.0.0.1:0")?);
+        }
+        let listener = l.as_ref().unwrap();
+        let stream = TcpStream::connect(listener.local_addr()?)?;
+        let _ = listener.accept()?;
+        Ok(stream)
+    })
+}
+
+pub(crate) fn tcp_new(addr: &SocketAddr, ts: &Option<TimeoutSettings>) -> Option<GDResult<TcpStream>> {
+    let connect = TimeoutSettings::get_connect_or_default(ts);
+    with_state(|st| {
+        st.trace.push(TraceEvent::NewTcp { addr: *addr, connect });
+        match st.script.tcp.pop_front() {
+            Some(TcpConn::Stream { data, stall }) => {
+                st.tcp_current = Some((data, stall));
+                dummy_stream().map_err(|e| SocketConnect.context(e))
+            }
+            Some(TcpConn::Refused) | None => {
+                st.tcp_current = None;
+                Err(SocketConnect.context("scripted connection refused"))
+            }
+        }
+    })
+}
+
+pub(crate) fn tcp_receive(size: Option<usize>) -> Option<GDResult<Vec<u8>>> {
+    with_state(|st| {
+        st.trace.push(TraceEvent::Recv { size });
+        match st.tcp_current.as_mut() {
+            Some((data, stall)) => {
+                if *stall {
+                    Err(PacketReceive.context("scripted stall"))
+                } else {
+                    Ok(std::mem::take(data))
+                }
+            }
+            None => Err(PacketReceive.context("no scripted stream")),
+        }
+    })
+}
